@@ -371,16 +371,66 @@ theorem genG_stmt (mod fn : String) (φ : String → Option String) (T : List St
           · refine GenG.plain rfl rfl ?_
             intro m hm
             simp only [codeVars_append, List.mem_append] at hm
-            rcases hm with hm | hm
-            · exact hlive m hm
-            · simp [codeVars, var?] at hm
-          · refine GenG.plain rfl rfl ?_
-            intro m hm
-            simp only [cgE, codeVars_append, List.mem_append] at hm
             rcases hm with (hm | hm) | hm
             · exact hlive m hm
             · simp [codeVars, var?] at hm
-            · simp [codeVars, var?] at hm
+            · split at hm <;> simp [codeVars, var?] at hm
+          · split
+            · refine GenG.plain rfl rfl ?_
+              intro m hm
+              simp only [codeVars_append, List.mem_append] at hm
+              rcases hm with hm | hm
+              · exact hlive m hm
+              · simp [codeVars, var?] at hm
+            · refine GenG.plain rfl rfl ?_
+              intro m hm
+              simp only [cgE, codeVars_append, List.mem_append] at hm
+              rcases hm with (hm | hm) | hm
+              · exact hlive m hm
+              · simp [codeVars, var?] at hm
+              · simp [codeVars, var?] at hm
+        case tryE tsp ty t ci c =>
+          obtain ⟨csp', cty', cstmts, coe⟩ := c
+          cases coe with
+          | some _ => exact GenG.nil T env
+          | none =>
+            simp only [Frag.depthGS, Frag.depthGBS] at hd
+            simp only [Frag.wsGS, Bool.and_eq_true] at hws
+            obtain ⟨⟨_, hwt⟩, hwc⟩ := hws
+            simp only [Frag.identsGS, Frag.identsGBS, List.mem_append, List.mem_cons] at hT
+            simp only [cgS]
+            generalize freshLabel mod env.lm "exception_label" = exc at hwt hwc ⊢
+            generalize freshLabel mod exc.2 "after_catch_label" = aft at hwt hwc ⊢
+            have h1 : GenG T env { env with lm := aft.2 } [((Instr.setTry ((φ fn).getD "") exc.1 : SInstr), tsp)] :=
+              GenG.plain rfl rfl (by intro m hm; simp [codeVars, var?] at hm)
+            have h2 := ihB [] t { env with lm := aft.2 } (by omega) (fun x hx => hT x (Or.inl hx)) hwt
+            generalize cgBS mod fn φ [] t { env with lm := aft.2 } = ct at h2 hwc ⊢
+            have h3 : GenG T ct.2 { ct.2 with scopes := [] :: ct.2.scopes }
+                [((Instr.popTry : SInstr), tsp), (.jump aft.1, tsp), (.label exc.1, tsp)] :=
+              ⟨[], by simp, fun m hm => by simp [codeVars, var?] at hm,
+                fun m hm => Or.inr (by simpa [liveNames, levelNames] using hm)⟩
+            have h4 : GenG T { ct.2 with scopes := [] :: ct.2.scopes }
+                (freshVar mod { ct.2 with scopes := [] :: ct.2.scopes } ci).2
+                [((Instr.setVar (freshVar mod { ct.2 with scopes := [] :: ct.2.scopes } ci).1 : SInstr), tsp),
+                  (.popTry, tsp)] :=
+              GenG.fresh mod T _ ci (hT ci (Or.inr (Or.inl rfl))) _ rfl (Nat.le_refl _) _ (by
+                intro m hm
+                simp only [codeVars, List.filterMap_cons, var?, List.filterMap_nil, List.mem_singleton] at hm
+                exact Or.inl hm)
+            have h5 := ihSs loops cstmts (freshVar mod { ct.2 with scopes := [] :: ct.2.scopes } ci).2 (by omega)
+              (fun x hx => hT x (Or.inr (Or.inr hx))) hwc
+            generalize cgSs mod fn φ loops cstmts (freshVar mod { ct.2 with scopes := [] :: ct.2.scopes } ci).2 = cc
+              at h5 ⊢
+            have h6 : GenG T cc.2 { cc.2 with scopes := cc.2.scopes.tail } [((Instr.label aft.1 : SInstr), tsp)] := by
+              refine ⟨[], by simp, fun m hm => by simp [codeVars, var?] at hm, fun m hm => Or.inr ?_⟩
+              cases hsc : cc.2.scopes with
+              | nil => simp [hsc, liveNames] at hm
+              | cons c rest =>
+                simp only [hsc, List.tail_cons] at hm
+                simp only [liveNames, List.flatMap_cons, List.mem_append]
+                exact Or.inr hm
+            have hall := ((((h1.trans h2).trans h3).trans h4).trans h5).trans h6
+            simpa [List.append_assoc] using hall
         all_goals exact GenG.nil T env
       case whileS sp c body =>
         simp only [Frag.depthGS] at hd
